@@ -108,6 +108,7 @@ pub struct Report {
 
 pub const MAX_SAMPLES: usize = 5;
 pub const MAX_VIOLATIONS_KEPT: usize = 20;
+pub const MAX_PER_CLASS: usize = 6;
 pub const MAX_STATE_STRINGS: usize = 400;
 
 impl Report {
@@ -167,7 +168,9 @@ impl Report {
     pub fn violation(&mut self, class: &str, message: impl Into<String>, case: Value) {
         self.violation_count += 1;
         *self.counters.entry(format!("violation_class_{class}")).or_insert(0) += 1;
-        if self.violations.len() < MAX_VIOLATIONS_KEPT {
+        // keep a few witnesses per class so that a frequent class cannot hide a rare one
+        let same_class = self.violations.iter().filter(|v| v.class == class).count();
+        if same_class < MAX_PER_CLASS && self.violations.len() < MAX_VIOLATIONS_KEPT * 4 {
             self.violations.push(Violation {
                 class: class.to_string(),
                 message: message.into(),
@@ -209,7 +212,8 @@ impl Report {
         }
         self.violation_count += other.violation_count;
         for v in other.violations {
-            if self.violations.len() < MAX_VIOLATIONS_KEPT {
+            let same_class = self.violations.iter().filter(|x| x.class == v.class).count();
+            if same_class < MAX_PER_CLASS && self.violations.len() < MAX_VIOLATIONS_KEPT * 4 {
                 self.violations.push(v);
             }
         }
